@@ -36,6 +36,13 @@ pub trait System: Sized {
     fn step(&mut self, a: &Self::Action, fails: &mut Vec<Fail>);
     /// Canonical, property-relevant observable state.
     fn canon(&self) -> Vec<u8>;
+    /// Apply an action while *replaying* a known history (replay mode only): same state change as
+    /// `step`; implementations may skip oracle work that was already done when the transition was
+    /// first taken.
+    fn step_quiet(&mut self, a: &Self::Action) {
+        let mut sink = vec![];
+        self.step(a, &mut sink);
+    }
 }
 
 #[derive(Clone, Debug, Default)]
@@ -209,9 +216,8 @@ where
     let mut sampled = 0;
     let replay = |hist: &[S::Action]| -> S {
         let mut s = mk();
-        let mut sink = vec![];
         for a in hist {
-            s.step(a, &mut sink);
+            s.step_quiet(a);
         }
         s
     };
